@@ -635,7 +635,7 @@ func genC02(ctx *hx.Ctx, emit func(hx.Case)) {
 	c02Exhaustive(ctx, emit)
 	n := 3000
 	if ctx.Thorough() {
-		n = 30000
+		n = 24000
 	}
 	for i := 0; i < n; i++ {
 		emit(c02Random(ctx.Rng))
